@@ -14,7 +14,7 @@ import (
 	"golang.org/x/tools/go/ssa/ssautil"
 )
 
-const repoDir = "/repo"
+var repoDir = "/repo"
 
 var verifDir = "/verif"
 
